@@ -116,7 +116,7 @@ DerivativeOK == (cls = "Derivative") =>
     /\ \A d \in 1..D : \A a \in 1..(MaxJ - 1) : \A b \in 1..(MaxJ - a) : CMul(IkPow(k, d, a), IkPow(k, d, b)) = IkPow(k, d, a + b)
     /\ \A o \in {2, 4} : LET sym == SumD(D, LAMBDA d : IkPow(k, d, o))
                          IN  IF VSq(k) = 0 THEN CIsZero(sym)
-                             ELSE ~CIsZero(sym) /\ QIsZero(sym.im) /\ CMul(CNeg(CInv(sym)), sym) = CInt(-1)
+                             ELSE ~CIsZero(sym) /\ QIsZero(sym.im) /\ CMul(CNeg(CReal(QInv(sym.re))), sym) = CInt(-1)      \* real symbol: inverse without squaring (32-bit)
 \* ------------------------------------------------------------------ properties of the time counter
 \* n calls with dt = one call with n*dt ; a call with -dt undoes a call with dt
 RECURSIVE SumHist(_)
